@@ -70,6 +70,12 @@ func next(tag, sort string) string {
 	}
 	v := st.cex.Values[st.pos]
 	st.pos++
+	// values of engine-internal sources (symbolic clock, math/rand) cannot be
+	// injected into the native run; they are skipped
+	for (v.Tag == "now" || v.Tag == "rand") && v.Tag != tag && st.pos < len(st.cex.Values) {
+		v = st.cex.Values[st.pos]
+		st.pos++
+	}
 	if v.Tag != tag {
 		panic(InvalidReplay{fmt.Sprintf("value %d is for tag %q, harness asked for %q", st.pos-1, v.Tag, tag)})
 	}
@@ -84,18 +90,18 @@ func atoi(s string) int {
 	return int(n)
 }
 
-func Int(tag string) int                      { return atoi(next(tag, "Int")) }
-func IntRange(tag string, lo, hi int) int     { return atoi(next(tag, "Int")) }
-func Bool(tag string) bool                    { return next(tag, "Bool") == "true" }
-func Str(tag string, maxLen int) string       { return next(tag, "String") }
+func Int(tag string) int                                   { return atoi(next(tag, "Int")) }
+func IntRange(tag string, lo, hi int) int                  { return atoi(next(tag, "Int")) }
+func Bool(tag string) bool                                 { return next(tag, "Bool") == "true" }
+func Str(tag string, maxLen int) string                    { return next(tag, "String") }
 func StrIn(tag string, maxLen int, alphabet string) string { return next(tag, "String") }
-func Pick(tag string, n int) int              { return atoi(next(tag, "Int")) }
-func Len(tag string, lo, hi int) int          { return atoi(next(tag, "Int")) }
-func OneOf(tag string, vals ...string) string { return vals[atoi(next(tag, "Int"))] }
-func Float(tag string, vals ...float64) float64 { return vals[atoi(next(tag, "Int"))] }
-func Concretize(v int) int                    { return v }
-func ConcretizeStr(v string) string           { return v }
-func Symbolic() bool                          { return false }
+func Pick(tag string, n int) int                           { return atoi(next(tag, "Int")) }
+func Len(tag string, lo, hi int) int                       { return atoi(next(tag, "Int")) }
+func OneOf(tag string, vals ...string) string              { return vals[atoi(next(tag, "Int"))] }
+func Float(tag string, vals ...float64) float64            { return vals[atoi(next(tag, "Int"))] }
+func Concretize(v int) int                                 { return v }
+func ConcretizeStr(v string) string                        { return v }
+func Symbolic() bool                                       { return false }
 
 func Assume(c bool) {
 	if !c {
@@ -114,9 +120,9 @@ func Assert(c bool, tag string) {
 func Class(name string, c bool) {}
 func Reach(tag string)          { emit("REACH %s", tag) }
 
-func ObserveInt(tag string, v int)       { emit("OBS %s=%d", tag, v) }
-func ObserveStr(tag string, v string)    { emit("OBS %s=%s", tag, strconv.Quote(v)) }
-func ObserveBool(tag string, v bool)     { emit("OBS %s=%v", tag, v) }
+func ObserveInt(tag string, v int)    { emit("OBS %s=%d", tag, v) }
+func ObserveStr(tag string, v string) { emit("OBS %s=%s", tag, strconv.Quote(v)) }
+func ObserveBool(tag string, v bool)  { emit("OBS %s=%v", tag, v) }
 func ObserveStrs(tag string, v []string) {
 	p := make([]string, len(v))
 	for i := range v {
@@ -148,6 +154,9 @@ func And(a, b bool) bool     { return a && b }
 func Or(a, b bool) bool      { return a || b }
 func Not(a bool) bool        { return !a }
 func Implies(a, b bool) bool { return !a || b }
+
+// Bind names a (large) boolean term so that later terms refer to it by name.
+func Bind(a bool) bool { return a }
 func IteInt(c bool, a, b int) int {
 	if c {
 		return a
@@ -175,13 +184,13 @@ func StubCalls(name string) int { return CountGet("stub:" + name) }
 
 // Thread-model primitives (native replay of schedules is not supported; the
 // native versions run the function on a real goroutine).
-func Go(name string, f func())      { go f() }
-func Yield()                        {}
-func Ticks(n int)                   {}
-func AllowMainBlock()               {}
-func BlockForever()                 { select {} }
-func LastDoneCheckSawClosed() bool  { return false }
-func ThreadID() int                 { return 0 }
+func Go(name string, f func())     { go f() }
+func Yield()                       {}
+func Ticks(n int)                  {}
+func AllowMainBlock()              {}
+func BlockForever()                { select {} }
+func LastDoneCheckSawClosed() bool { return false }
+func ThreadID() int                { return 0 }
 
 // RunReplay runs harness fn under the loaded counterexample and reports how it
 // ended: "ok", "assert:<tag>", "panic:<text>" or "invalid:<why>".
